@@ -64,7 +64,7 @@ def oracle(case, ans):
     steps = E.parse_answer(ans)
     fails = []
     refuse = False       # auto_commit off: a list insert / family append happened and no commit since
-    for idx, (status, fresh, texts, dump) in enumerate(steps):
+    for idx, (status, fresh, texts, dump, _at) in enumerate(steps):
         op = case["ops"][idx - 1] if idx > 0 else ["parse"]
         if fresh == "!":
             fails.append(f"after step {idx - 1} {op}: committed tree differs from a fresh parse of {texts!r}")
@@ -99,5 +99,5 @@ def describe(case):
 def buckets(case, ans):
     out = ["syntax:" + case["syntax"], "auto:%d" % case["auto_commit"], "ignore_blank:%d" % case["ignore_blank"]]
     for op, part in zip(case["ops"], ans.split("#")[1:]):
-        out.append("op:" + op[0] + ":" + part.split("~")[0])
+        out.append("op:" + op[0] + ":" + part.split("~")[0].split("@")[0])
     return out
